@@ -91,7 +91,7 @@ func (t *template) RenderReader(ctx context.Context, w io.Writer, r io.Reader) e
 
 	// Parse the template from reader as a fragment
 	body := helpers.GetBodyNode()
-	dom, err := html.ParseFragment(r, body)
+	dom, err := html.ParseFragmentWithOptions(r, body, html.ParseOptionEnableScripting(false))
 	if err != nil {
 		return fmt.Errorf("error parsing template: %w", err)
 	}
